@@ -43,8 +43,9 @@ ASSUMPTIONS = [
     'one subscriber position counter per image (one reader thread per case)',
     'theorems C03_race_free / C03_excl_*: no partition is used by two generations (runs within generations n0 .. n0+2: the driver has '
     'cleaned nothing, so nothing may be reused); the generated cases keep the limit <= (n0+2) * term length',
-    'theorems for the poll flavours cover poll, bounded_poll, controlled_poll, bounded_controlled_poll; controlled_peek and block_poll '
-    'and the shared claimant are covered by the model comparison and the oracle only',
+    'theorems for the six poll flavours are about the exclusive publisher; against shared publishers the theorems cover Image::poll, '
+    'the other flavours and the shared claimant (Publication::try_claim) are covered by the model comparison and the oracle only',
+    'block_poll: block_length_limit small enough that term_offset + limit does not overflow i32 (no debug-build panic modelled)',
     'the hook reports the header burst of HeaderWriter::write as the whole 32-byte header; its real extent is taken from the '
     'assignments in the source (K1 header_burst_fields)',
 ]
